@@ -31,6 +31,31 @@ func Verif_C13_Imports(n int) { vImports(n, false) }
 // chosen by case split over every possibility.
 func Verif_C13_ImportsChain(n int) { vImports(n, true) }
 
+// vBlobKB: size of an extra non-Go file in the first package's directory.
+var vBlobKB int
+
+// Verif_C13_BigFile(kb): three packages in a chain; the first package's
+// directory also holds a kb KiB file: the sum
+// recorded for the package is the hash of the whole directory content.
+func Verif_C13_BigFile(kb int) {
+	vBlobKB = kb
+	vImports(3, true)
+	vBlobKB = 0
+}
+
+func vBlob() string {
+	line := "0123456789abcdef0123456789abcdef0123456789abcdef0123456789abcde\n" // 64 bytes
+	block := ""
+	for i := 0; i < 16; i++ {
+		block += line
+	}
+	s := block
+	for len(s) < vBlobKB*1024 {
+		s += s
+	}
+	return s[:vBlobKB*1024]
+}
+
 func vImports(n int, sparse bool) {
 	all := []string{"pa", "pb", "pc", "pd", "pe", "pf", "pg", "ph", "pi", "pj", "pk", "pl", "pm", "pn"}
 	verifsym.Assume(n <= len(all))
@@ -113,6 +138,9 @@ func vImports(n int, sparse bool) {
 			verifsym.FSPut(root+"/"+nm+"/"+nm+".go", "package "+nm+"\n")
 			verifsym.FSPut(root+"/"+nm+"/.hidden.json", "{}\n")
 		}
+		if vBlobKB > 0 {
+			verifsym.FSPut(root+"/"+names[0]+"/blob.bin", vBlob())
+		}
 		verifsym.Provide("packages.Load", roots)
 		u, err = Load(patterns)
 	} else {
@@ -126,6 +154,9 @@ func vImports(n int, sparse bool) {
 			}
 			verifsym.FSPut(filepath.Join(root, nm, nm+".go"), src)
 			verifsym.FSPut(filepath.Join(root, nm, ".hidden.json"), "{}\n") // a dot-file is part of the directory too
+		}
+		if vBlobKB > 0 {
+			verifsym.FSPut(filepath.Join(root, names[0], "blob.bin"), vBlob())
 		}
 		os.Setenv("GOFLAGS", "-mod=mod")
 		u, err = Load(patterns, WithDir(root))
